@@ -26,6 +26,23 @@ def run_driver(lines, timeout: int = 900):
     raise last
 
 
+# boundary pool for integer event option values: around the 32-bit emsg fields, the 33-bit PTS wrap,
+# the 2^53 limit of exact doubles (odd values above it are not representable) and the 64-bit v1 time
+BOUNDARY = sorted({2 ** k + d for k in (31, 32, 33, 53, 54, 55, 62) for d in (-1, 0, 1)} |
+                  {2 ** 53 + 3, 2 ** 54 + 3, 2 ** 55 + 5, 2 ** 60 + 7, 2 ** 63 - 1})
+
+
+def boundary_value(rng, limit: int | None = None, odd_above_2_53: bool = False) -> int:
+    """a value from BOUNDARY (below `limit` if given), sometimes nudged by a small offset"""
+    pool = [v for v in BOUNDARY if limit is None or v < limit]
+    v = rng.choice(pool) + rng.choice([0, 0, 0, 2, -2, 12345])
+    if limit is not None and v >= limit:
+        v = limit - 1
+    if odd_above_2_53 and v > 2 ** 53 and v % 2 == 0:
+        v += 1 if (limit is None or v + 1 < limit) else -1
+    return max(0, v)
+
+
 PING_SCHEME = "urn:dash-live:pingpong:2022"
 SCTE_SCHEME = "urn:scte:scte35:2014:xml+bin"
 TIMESCALES = [1, 10, 25, 90, 100, 240, 1000, 12800, 44100, 48000, 90000, 10 ** 6, 10 ** 7]
